@@ -1,5 +1,6 @@
 """Contracts for gwf.core"""
 from pyvc import ty as T
+from pyvc.core import Loop
 
 
 def install(eng):
@@ -7,12 +8,13 @@ def install(eng):
     LP = T.ListV(vc.Path)
     # ---- Target
     eng.contract("gwf.core:Target.flattened_outputs", self_type=vc.Target, params={"self": vc.Target}, returns=LP,
-                 ensures=["elems(result) == Outs(self)", "(len(result) == 0) == (nleaves(self.outputs) == 0)"],
-                 trusted=True, uses=["tree"], serves=["C01", "C03", "C04", "C15", "C16"],
-                 note="TODO verify against _flatten/_norm_paths")
+                 ensures=["forall(lambda q: (q in result) == (q in Outs(self)), Path)", "(len(result) == 0) == (nleaves(self.outputs) == 0)"],
+                 uses=["tree", "filesets", "ospath"], serves=["C01", "C03", "C04", "C15", "C16"],
+                 note="Outs is DEFINED as the Canon-image of the leaves (axiom group filesets); 'no leaf <=> empty set' "
+                      "(group tree) is a structural-induction lemma that is assumed")
     eng.contract("gwf.core:Target.flattened_inputs", self_type=vc.Target, params={"self": vc.Target}, returns=LP,
-                 ensures=["elems(result) == Ins(self)", "(len(result) == 0) == (nleaves(self.inputs) == 0)"],
-                 trusted=True, uses=["tree"], serves=["C01", "C03", "C04"])
+                 ensures=["forall(lambda q: (q in result) == (q in Ins(self)), Path)", "(len(result) == 0) == (nleaves(self.inputs) == 0)"],
+                 uses=["tree", "filesets", "ospath"], serves=["C01", "C03", "C04"])
     # ---- filesystem interface
     eng.contract("iface:Fs.exists", self_type=vc.Fs, params={"self": vc.Fs, "path": vc.Path}, returns=T.BOOL,
                  returns_expr="fs_exists(self, path)", trusted=True)
@@ -21,7 +23,7 @@ def install(eng):
                  raises={"FileNotFoundError": "not fs_exists(self, path)"}, trusted=True, uses=["fs"])
     # ---- path normalisation (C03, C19): string level kept abstract, os.path algebra trusted
     eng.contract("gwf.core:_norm_path", params={"working_dir": vc.Path, "path": vc.Path}, returns=vc.Path,
-                 ensures=["result == Canon(working_dir, path)"], uses=["ospath"],
+                 returns_expr="Canon(working_dir, path)", pure=True, uses=["ospath"],
                  serves=["C03", "C01", "C15", "C19"])
 
     def replay_norm_path(eng, ob, model, seed):
@@ -46,3 +48,27 @@ def install(eng):
         return {"failed_on_real_code": False, "candidates_tried": tried}
 
     eng.replayers["gwf.core:_norm_path"] = replay_norm_path
+
+    # ---- flattening of nested inputs/outputs (C01: grouping does not matter; C03, C15, C16 rely on it)
+    FnRef = vc.FnRef
+    eng.contract(
+        "gwf.core:_flatten.flatten_rec", params={"g": vc.Tree},
+        captures={"res": LP, "flatten_rec": FnRef("gwf.core:_flatten.flatten_rec")}, modifies=["res"],
+        # every leaf of g is appended, nothing else; the count is the number of leaves
+        ensures=["forall(lambda p: (p in res) == (p in old(res) or InLeaves(g, p)), Path)",
+                 "len(res) == old(len(res)) + nleaves(g)"],
+        loops={1: Loop(it="rest", inv=[
+            "forall(lambda p: (p in res or InLeaves(rest, p)) == (p in old(res) or InLeaves(g, p)), Path)",
+            "len(res) + nleaves(rest) == old(len(res)) + nleaves(g)"]),
+            2: Loop(it="rest", inv=[
+                "forall(lambda p: (p in res or InLeaves(rest, p)) == (p in old(res) or InLeaves(g, p)), Path)",
+                "len(res) + nleaves(rest) == old(len(res)) + nleaves(g)"])},
+        uses=["leaves"], serves=["C01", "C03", "C15", "C16", "C19"],
+        note="termination (structural recursion over the value) is not mechanised")
+    eng.contract("gwf.core:_flatten", params={"t": vc.Tree}, returns=LP, locals={"res": LP},
+                 ensures=["forall(lambda p: (p in result) == InLeaves(t, p), Path)", "len(result) == nleaves(t)"],
+                 uses=["leaves"], serves=["C01", "C03", "C15", "C16", "C19"])
+    eng.contract("gwf.core:_norm_paths", params={"working_dir": vc.Path, "paths": LP}, returns=LP,
+                 ensures=["forall(lambda q: (q in result) == any(q == Canon(working_dir, p) for p in paths), Path)",
+                          "(len(result) == 0) == (len(paths) == 0)"],
+                 uses=["ospath"], serves=["C01", "C03", "C15", "C16", "C19"])
